@@ -6,6 +6,7 @@ run PRNG is only used while *generating* the plan; at execution time every rando
 choice derives from the step's own sub-seed ``rs``.
 """
 import hashlib
+from fnmatch import fnmatchcase
 import json
 import random
 import traceback
@@ -74,7 +75,7 @@ class Ctx:
         self.pid = pid
         self.plan = plan
         self.config = plan.get("config", {})
-        self.known_keys = frozenset(known_keys)
+        self.known_keys = tuple(known_keys)  # exact keys or fnmatch patterns (narrow: class + structural feature)
         self.events = []
         self.probes = Counter()
         self.faults = Counter()
@@ -108,9 +109,10 @@ class Ctx:
     def fail(self, cls, key, detail):
         full = f"{self.pid}/{cls}"
         fkey = f"{full}:{key}" if key else full
-        if fkey in self.known_keys:
-            self.known_hits[fkey] += 1
-            raise KnownHit(fkey)
+        for pat in self.known_keys:
+            if fkey == pat or ("*" in pat and fnmatchcase(fkey, pat)):
+                self.known_hits[pat] += 1
+                raise KnownHit(fkey)
         raise Viol(full, fkey, str(detail)[:2000])
 
     def check(self, cond, cls, key, detail):
@@ -227,3 +229,32 @@ def call(fn, *a, **kw):
         raise
     except Exception as e:  # library exceptions are data for the oracle
         return False, e
+
+
+class WallLimit(Exception):
+    """Raised inside an oracle evaluation that exceeded its wall-clock safety net."""
+
+
+class time_limit:
+    """Safety net around oracle-side evaluations that may be pathologically slow in sympy.
+    Only ever used where the outcome is a *skipped* comparison (a probe), never a verdict."""
+
+    def __init__(self, seconds):
+        self.seconds = seconds
+
+    def _raise(self, *_):
+        raise WallLimit()
+
+    def __enter__(self):
+        import signal
+
+        self._old = signal.signal(signal.SIGALRM, self._raise)
+        signal.setitimer(signal.ITIMER_REAL, self.seconds)
+        return self
+
+    def __exit__(self, *exc):
+        import signal
+
+        signal.setitimer(signal.ITIMER_REAL, 0)
+        signal.signal(signal.SIGALRM, self._old)
+        return False
